@@ -1,0 +1,10 @@
+//go:build verif
+
+package gonnx
+
+// VerifParameters exposes the model's decoded weight tensors (the very objects every Run hands to
+// the operators) so that verification harnesses can snapshot them before and after Runs.
+// Read-only use; compiled only with -tags verif.
+func VerifParameters(m *Model) Tensors {
+	return m.parameters
+}
